@@ -402,7 +402,8 @@ def runs_configs(tier):
         digit_sets += [["0123", "0099"], ["0007", "0012"], ["0099", "0100"]]
     for ds_ in digit_sets:
         tag = "-".join(ds_)
-        # two-folder create queries are hard for the string solver (may stay inconclusive): thorough tier only
+        # two-folder create queries: decided in 10-40 s each when run alone (numbering goal as a lemma for freshness + the suffix-
+        # splitting lemma), but under the quick tier's parallel load they hit the 60 s solver cap - thorough tier only
         if len(ds_) == 1 or tier == "thorough":
             out.append({"name": f"runs-create-{tag}", "kind": "runs", "what": "create", "ndirs": len(ds_), "maxlen": L, "digits": ds_})
         if len(ds_) == 2:
@@ -520,6 +521,11 @@ def _run_runs(cfg, rec):
         next_ok = z3.And(z3.PrefixOf(prefix, Rname), z3.Length(Rname) == z3.Length(prefix) + 4, z3.InRe(sfx_, z3.Loop(I.DIGIT, 4, 4)),
                          z3.StrToInt(sfx_) == z3.StrToInt(best) + 1)
         spec = z3.If(any_exact, next_ok, Rname == z3.Concat(base, z3.StringVal("_run_0000")))
+        # valid lemma of the theory of strings (helps the solver split suffixes): A ++ "_run_" ++ D == B ++ "_run_" ++ E with
+        # |D| = |E| = 4 implies A == B and D == E - instantiated for each existing folder n_i ++ "_run_" ++ dddd and the new name
+        for i in range(n):
+            hyp.append(z3.Implies(z3.And(z3.PrefixOf(prefix, Rname), z3.Length(Rname) == z3.Length(prefix) + 4, env.names[i] == Rname),
+                                  z3.And(names[i] == base, digs[i] == sfx_)))
         goals.append(("saving never raises for a well-formed results folder", z3.Not(raises), "runs:create:exception", []))
         goals.append(("new run number = highest run of exactly this result name + 1 (0000 if none)", z3.Or(raises, spec),
                       "runs:create:wrong-number", []))
